@@ -12,6 +12,15 @@ import threading
 def main():
     nthreads, out = int(sys.argv[1]), sys.argv[2]
     sys.setswitchinterval(1e-6)
+    if "--fast-clock" in sys.argv:
+        # the host's clocks run 3600 times faster (patched before the repository is imported, so `from time import ..`
+        # bindings see it too): nothing about a construction may depend on how much wall-clock time it seems to take
+        import time
+
+        for n in ("monotonic", "perf_counter", "process_time"):
+            r, rn = getattr(time, n), getattr(time, n + "_ns")
+            setattr(time, n, (lambda f: lambda: f() * 3600.0)(r))
+            setattr(time, n + "_ns", (lambda f: lambda: f() * 3600)(rn))
     from pyabv.impl import impl
     from pyabv.props.c17 import PANEL, SOURCES
     from pyabv.run import assert_tree, jsonable
